@@ -103,3 +103,28 @@
        (= (mod (tOff t) 60) 0) (=> (= (dtPrec l) 3) (= (mod (tOff t) 3600) 0))
        (=> (< (dtPrec l) 1) (= (tMo t) 1)) (=> (< (dtPrec l) 2) (= (tD t) 1)) (=> (< (dtPrec l) 3) (= (tH t) 0))
        (=> (< (dtPrec l) 4) (= (tMi t) 0)) (=> (< (dtPrec l) 5) (and (= (tS t) 0) (= (tNs t) 0)))))
+; ---- C09: unit tables --------------------------------------------------------------------
+(define-fun NS_HOUR () Int 3600000000000)
+(define-fun NS_MIN () Int 60000000000)
+(define-fun NS_SEC () Int 1000000000)
+(define-fun NS_MS () Int 1000000)
+; duration of one unit of a Time precision (hour, minute, second)
+(define-fun timeUnitNs ((p Int)) Int (ite (= p 0) 3600000000000 (ite (= p 1) 60000000000 1)))
+; duration of one unit of a DateTime precision; 1 year = 365 days, 1 month = 30 days
+(define-fun dtUnitNs ((p Int)) Int
+  (ite (= p 0) (* 365 86400000000000) (ite (= p 1) (* 30 86400000000000) (ite (= p 2) 86400000000000
+  (ite (= p 3) 3600000000000 (ite (= p 4) 60000000000 1))))))
+; calendar keywords (singular and plural)
+(define-fun isUnit ((u String) (s String)) Bool (or (= u s) (= u (str.++ s "s"))))
+(define-fun isTimeUnit ((u String)) Bool (or (isUnit u "hour") (isUnit u "minute") (isUnit u "second") (isUnit u "millisecond")))
+(define-fun isCalUnit ((u String)) Bool (or (isUnit u "year") (isUnit u "month") (isUnit u "week") (isUnit u "day") (isTimeUnit u)))
+; whole years / months represented by an amount in a unit (statement: 12 months, 7-day weeks,
+; 365-day years, 30-day months, fractions dropped); v = the amount with its fraction dropped
+(define-fun yearsOf ((u String) (v Int)) Int
+  (ite (isUnit u "year") v (ite (isUnit u "month") (tdiv v 12) (ite (isUnit u "week") (tdiv (* v 7) 365) (ite (isUnit u "day") (tdiv v 365)
+  (ite (isUnit u "hour") (tdiv v 8760) (ite (isUnit u "minute") (tdiv v 525600) (ite (isUnit u "second") (tdiv v 31536000)
+  (tdiv (tdiv v 31536000) 1000)))))))))
+(define-fun monthsOf ((u String) (v Int)) Int
+  (ite (isUnit u "year") (* v 12) (ite (isUnit u "month") v (ite (isUnit u "week") (tdiv (* v 7) 30) (ite (isUnit u "day") (tdiv v 30)
+  (ite (isUnit u "hour") (tdiv v 720) (ite (isUnit u "minute") (tdiv v 43200) (ite (isUnit u "second") (tdiv v 2592000)
+  (tdiv (tdiv v 2592000) 1000)))))))))
